@@ -364,7 +364,7 @@ class C07(SolveProperty):
     certs = [0, 1]
     multi = True
     rule = C01.rule + ("; argument lists of length 1-3 with repetition, drawn over all components; both the certificate and the certificate-less entry point; "
-                       "plus disjoint unions of 2-4 small components (isolated arguments, chains, even and odd cycles, random 2-3 argument graphs) queried with many ordered "
+                       "plus disjoint unions of 2-4 small components (isolated arguments, chains, even and odd cycles, floating-acceptance gadgets whose floating argument is in every preferred extension but not ideal, random 2-3 argument graphs) queried with many ordered "
                        "pairs and triples so that accepted / rejected arguments of different components occur in every order")
 
     def frameworks(self, tier, rng):
@@ -372,8 +372,14 @@ class C07(SolveProperty):
         for _ in range(60 if tier == "quick" else 1500):
             parts = []
             for _ in range(rng.randint(2, 4)):
-                k = rng.choice(["iso", "chain2", "chain3", "cyc2", "cyc3", "rand2", "rand3"])
-                if k == "iso":
+                k = rng.choice(["iso", "chain2", "chain3", "cyc2", "cyc3", "rand2", "rand3", "float", "floatx"])
+                if k == "float":
+                    # floating acceptance: 3 is in every preferred extension but not in the ideal one
+                    parts.append((4, [(0, 1), (1, 0), (0, 2), (1, 2), (2, 3)]))
+                elif k == "floatx":
+                    # ... next to arguments that are in the ideal extension (4, and 3 is floating)
+                    parts.append((6, [(0, 1), (1, 0), (0, 2), (1, 2), (2, 3), (2, 5), (4, 5)]))
+                elif k == "iso":
                     parts.append((1, []))
                 elif k == "chain2":
                     parts.append((2, gen.chain(2)))
@@ -396,7 +402,7 @@ class C07(SolveProperty):
         out = SolveProperty.pick_args(self, rng, labels)
         if 2 <= len(labels) <= 9:
             pairs = [[a, b] for a in labels for b in labels if a != b]
-            out += rng.sample(pairs, min(len(pairs), 6))
+            out += rng.sample(pairs, min(len(pairs), 10))
             if len(labels) >= 3:
                 for _ in range(2):
                     out.append(rng.sample(labels, 3))
